@@ -1,5 +1,29 @@
+//! vh-conc: schedule-controlled and real-thread concurrency checks.
+//!   vh-conc C28 <quick|thorough> [--replay <path>]
+//!   vh-conc C29 <quick|thorough> [--replay <path>]
+//!   vh-conc selftest      (feeds hand-made bad histories to the DataLoader monitor)
+
+mod c28;
+mod c29;
+mod dl;
+mod pool;
+
 fn main() {
     let id = std::env::args().nth(1).unwrap_or_default();
-    println!("INCONCLUSIVE property={id} reason=vh-conc has no check for this property yet");
-    std::process::exit(2);
+    match id.as_str() {
+        "C28" => c28::main(),
+        "C29" => c29::main(),
+        "selftest" => {
+            let (lines, ok) = dl::selftest();
+            for l in &lines {
+                println!("{l}");
+            }
+            println!("selftest: {}", if ok { "all hand-made histories judged as expected" } else { "FAILED" });
+            std::process::exit(if ok { 0 } else { 2 });
+        }
+        _ => {
+            println!("INCONCLUSIVE property={id} reason=vh-conc has no check for this property yet");
+            std::process::exit(2);
+        }
+    }
 }
